@@ -61,26 +61,28 @@ func newByteAtoms() []string {
 }
 
 const deltaSpace = "symbols = the string / character / byte literals of the tree under test that the pinned tree does not contain (baseline/literals.json; none on the pinned tree, where this space is empty): " +
-	"opener x new symbol x (core bytes + new symbols)^<=3, and opener x symbol x new symbol x symbol^<=1 over bytes + fragments + new symbols"
+	"opener x new symbol (as written / lower / upper) x (core bytes + new symbols)^<=1, opener x new symbol x (core bytes + new symbols)^2..3, and opener x symbol x new symbol x symbol^<=1 over bytes + fragments + new symbols"
 
-// deltaRun explores the delta alphabet around the fixed one. filter (optional) drops symbols a check must not use.
-func deltaRun(w *fw.W, atoms, openers, core, wide []string) {
-	if len(atoms) == 0 {
+// deltaRun explores the delta alphabet around the fixed one: atoms = the new literals as written, forms = atoms
+// plus their lower / upper-case forms (short products only).
+func deltaRun(w *fw.W, atoms, forms, openers, core, wide []string) {
+	if len(forms) == 0 {
 		w.Finish()
 		return
 	}
-	if len(atoms) > 12 {
-		w.Note("more than 12 new literal symbols: only the first 12 are explored at full depth")
-		atoms = atoms[:12]
+	if len(atoms) > 16 {
+		w.Note("more than 16 new literal symbols: only the first 16 are explored at full depth")
+		atoms = atoms[:16]
 	}
 	ca := uniq(core, atoms)
-	wa := uniq(wide, atoms)
-	product(w, openers, atoms)
-	product(w, openers, atoms, ca)
+	cf := uniq(core, forms)
+	wf := uniq(wide, forms)
+	product(w, openers, forms)
+	product(w, openers, forms, cf)
 	product(w, openers, atoms, ca, ca)
 	product(w, openers, atoms, ca, ca, ca)
-	product(w, openers, wide, atoms)
-	product(w, openers, wide, atoms, wa)
+	product(w, openers, wide, forms)
+	product(w, openers, wide, forms, wf)
 }
 
 var sqlOpenersDelta = uniq([]string{""}, alpha.S2, alpha.SQLPrefixes[:14])
@@ -89,14 +91,14 @@ var htmlOpenersDelta = uniq([]string{"", "<a href=", "<a href=\"", "<a href='", 
 func deltaSQLPhase(eval func(w *fw.W, s, aux string)) fw.Phase {
 	return fw.Phase{Name: "new-literals", Space: deltaSpace, Share: 2,
 		Run: func(w *fw.W) {
-			deltaRun(w, uniq(alpha.DeltaSQL(), newByteAtoms()), sqlOpenersDelta, alpha.S1core, uniq(alpha.S1, alpha.S2))
+			deltaRun(w, uniq(alpha.DeltaSQLRaw(), newByteAtoms()), uniq(alpha.DeltaSQL(), newByteAtoms()), sqlOpenersDelta, alpha.S1core, uniq(alpha.S1, alpha.S2))
 		}, Eval: eval}
 }
 
 func deltaHTMLPhase(eval func(w *fw.W, s, aux string)) fw.Phase {
 	return fw.Phase{Name: "new-literals", Space: deltaSpace, Share: 2,
 		Run: func(w *fw.W) {
-			deltaRun(w, uniq(alpha.DeltaHTML(), newByteAtoms()), htmlOpenersDelta, alpha.H1core, uniq(alpha.H1, alpha.H2))
+			deltaRun(w, uniq(alpha.DeltaHTMLRaw(), newByteAtoms()), uniq(alpha.DeltaHTML(), newByteAtoms()), htmlOpenersDelta, alpha.H1core, uniq(alpha.H1, alpha.H2))
 		}, Eval: eval}
 }
 
